@@ -77,7 +77,12 @@ func (l *listener) Listen(ctx context.Context, onMessage func(msg message) error
 
 		return nil
 	})
-	defer func() { _ = eg.Wait() }()
+	defer func() {
+		// Cancel before waiting: the goroutine above only returns once ctx is
+		// canceled, which the deferred cancel above would do too late.
+		cancel()
+		_ = eg.Wait()
+	}()
 
 	for {
 		// Receive and pass incoming NDP messages to the caller.
